@@ -365,7 +365,7 @@ def parse_log(log, res):
         res["reason"] = "FAILED without failed checks (solver error / out of memory)"
         return
     missing = [w for w, v in witnesses.items() if v != "FAILURE" and w not in res.get("optional_witnesses", [])]
-    if witnesses.get("REACH_END") != "FAILURE" and covers.get("REACH_END") != "SATISFIED":
+    if witnesses.get("REACH_END") != "FAILURE" and covers.get("REACH_END") != "SATISFIED" and "REACH_END" not in res.get("optional_witnesses", []):
         res["reason"] = "vacuous: end of harness not reachable"
         return
     if missing:
